@@ -122,6 +122,11 @@ func (t *ParserTerm) preCheck(ctx *Context) bool {
 
 	case t.Type == ParserTermError:
 		t.Symbol = ctx.Grammar.ErrorTerminal
+
+	case t.Type == ParserTermSimple:
+		// A simple term with neither a name nor an alias is the literal ''.
+		ctx.Errs.Errorf(ctx.Position(t), "literal cannot be empty")
+		return false
 	}
 
 	return true
